@@ -25,6 +25,10 @@ def edit(rng, spec, model, n=None, only=None):
     kinds += ["skill_busy"] + (["fskill_busy"] if facs else [])
     if len(s["tasks"]) >= 2:
         kinds += ["edge_add"]
+    free_comps = [k for k in range(len(s["comps"])) if not any(t["component"] == k for t in s["tasks"])]
+    loose_tasks = [i for i, t in enumerate(s["tasks"]) if t["component"] is None]
+    if free_comps and loose_tasks:
+        kinds += ["bind_component", "bind_component"]
     if only is not None:
         kinds = [k for k in only if k in kinds]     # (repeated entries of `only` weigh more)
     for _ in range(n or rng.randint(1, 3)):
@@ -75,11 +79,23 @@ def edit(rng, spec, model, n=None, only=None):
                             if w["id"] == rid:
                                 w["skills"][t.name] = v
                 done.append("%s %s skill[%s]=%r (busy)" % ("worker" if k == "skill_busy" else "facility", rid, t.name, v))
+        elif k == "bind_component":
+            # a component that had no task so far gets one
+            free_comps = [c for c in range(len(s["comps"])) if not any(t["component"] == c for t in s["tasks"])]
+            loose_tasks = [i for i, t in enumerate(s["tasks"]) if t["component"] is None]
+            if free_comps and loose_tasks:
+                c, i = rng.choice(free_comps), rng.choice(loose_tasks)
+                s["tasks"][i]["component"] = c
+                model.comps[c].append_targeted_task(model.tasks[i])
+                done.append("component %s now has task %s" % (s["comps"][c]["id"], s["tasks"][i]["id"]))
         elif k == "edge_add":
             # a new dependency between two tasks (from a lower to a higher index: no cycle)
             i = rng.randrange(1, len(s["tasks"]))
             j = rng.randrange(0, i)
-            if not any(d[0] == j for d in s["tasks"][i]["deps"]):
+            # list order is part of a model: a fresh build lists the successors of j by ascending index, the
+            # in-place call appends - the same order only if i is behind every present successor of j
+            last_succ = max([x for x, t in enumerate(s["tasks"]) if any(d[0] == j for d in t["deps"])] or [-1])
+            if i > last_succ and not any(d[0] == j for d in s["tasks"][i]["deps"]):
                 kind = rng.choice([0, 0, 1, 2, 3])
                 s["tasks"][i]["deps"].append([j, kind])
                 model.tasks[i].append_input_task(model.tasks[j], ns.BaseTaskDependency(kind))
